@@ -291,6 +291,20 @@ def _enum_def_sites(body, l, names, wrap=0, enum_ty=""):
                     q = rv["ops"][0]["p"]
                     k = _wrapper_depth(flow.norm_proj(q["proj"]))
                     if k is None:
+                        # a field of an intermediate struct / tuple built in this body (`Outcome { credentials, .. }` then destructured)
+                        pr = [e for e in q["proj"] if e != "*"]
+                        bd = flow.single_def(body, q["l"])
+                        if pr and isinstance(pr[0], dict) and "f" in pr[0] and bd is not None and bd["kind"] == "assign" and bd["rv"]["k"] == "agg" and \
+                                bd["rv"].get("agg") in ("adt", "tuple") and pr[0]["f"] < len(bd["rv"]["ops"]) and \
+                                isinstance(bd["rv"]["ops"][pr[0]["f"]], dict) and "p" in bd["rv"]["ops"][pr[0]["f"]]:
+                            o2 = bd["rv"]["ops"][pr[0]["f"]]["p"]
+                            k2 = _wrapper_depth(flow.norm_proj(list(o2["proj"]) + pr[1:]))
+                            if k2 is not None:
+                                r = sites(o2["l"], w + k2, dep + 1)
+                                if r is None:
+                                    return None
+                                out += r
+                                continue
                         return None
                     r = sites(q["l"], w + k, dep + 1)
                     if r is None:
